@@ -205,8 +205,25 @@ def _suffix_helpers(prog, cg, chk, W2, roots):
             chk.unknown(W2, short, 'cuts its argument with substr but no string search was recognised')
             continue
         bad = [(nm, x) for nm, x in searches if nm not in ('rfind', 'find_last_of')]
-        inst = '%s locates the separator from the end (%s)' % (short, ', '.join(nm for nm, _ in searches))
-        if not bad:
+        # what is searched for: exactly one character ('/' for the file name, '.' for the extension);
+        # a set of characters ("/\\") also cuts at a character that may occur inside a component
+        seps = []
+        for nm, x in searches:
+            a = children(x)[1:]
+            v = program.literal_value(strip(a[0], explicit=True)) if a else None
+            if isinstance(v, int):
+                v = chr(v)
+            seps.append(v)
+        multi = [(nm, v) for (nm, _), v in zip(searches, seps) if not isinstance(v, str) or len(v) != 1 or v not in '/.']
+        inst = '%s locates the separator from the end (%s of %s)' % (
+            short, ', '.join(nm for nm, _ in searches), ', '.join(repr(v) for v in seps))
+        if not bad and multi:
+            chk.violation(W2, '%s|separator set' % short, locstr(searches[0][1]),
+                          '%s searches for %s: paths are stored with \'/\' between components and \'.\' before the '
+                          'extension; any other or additional separator character cuts inside a component that '
+                          'contains it, so the stored file name / extension disagree with the path' % (
+                              short, ', '.join(repr(v) for _, v in multi)))
+        elif not bad:
             chk.ok(W2, inst, locstr(g.node))
         else:
             chk.violation(W2, '%s|separator searched from the front' % short, locstr(bad[0][1]),
@@ -289,8 +306,10 @@ def run(tier='quick'):
     domains.apply_rule(prog, eff, chk, W7)
     domains.apply_bind_rule(prog, cg, eff, chk, W7)
     W8 = chk.rule('W8', 'the per-version copies of the triggers that keep the 2.x sibling and entry chains and the '
-                        'views over them are identical in every supported 2.x version', floor=5)
+                        'views over them are identical in every supported 2.x version, and every version has them', floor=5)
     c08.chain_trigger_siblings(prog, chk, W8, views=('playlistallparent', 'playlistallchildren', 'playlistpath'))
+    from . import c09
+    c09.splice_triggers_present(prog, chk, W8)
     # ---- W5 ------------------------------------------------------------------------------
     cats = rowrules.version_catalogs(prog)
     for en in order:
